@@ -50,7 +50,15 @@ class BidsFileGroup:
         for bids_obj in self.datafile_dict.values():
             sidecar_list = self.get_sidecars_from_path(bids_obj)
             if sidecar_list:
-                bids_obj.sidecar = self.sidecar_dict[sidecar_list[-1]]
+                deepest_sidecar = self.sidecar_dict[sidecar_list[-1]]
+                if sidecar_list == self.get_sidecars_from_path(deepest_sidecar):
+                    bids_obj.sidecar = deepest_sidecar
+                else:
+                    # The sidecars applicable to this data file are not those applicable to the deepest sidecar file
+                    # (e.g. a higher-level sidecar has an entity the deepest one lacks), so merge them for this file.
+                    merged_sidecar = BidsSidecarFile(sidecar_list[-1])
+                    merged_sidecar.set_contents(content_info=sidecar_list)
+                    bids_obj.sidecar = merged_sidecar
 
     def get_sidecars_from_path(self, obj):
         """ Return applicable sidecars for the object.
